@@ -196,6 +196,9 @@ let judge _id (c : cursor) (r : cursor) : bool * string =
     expect r "OP";
     let ret = next_int r in let _termcalls = next_int r in
     let evs = parse_events r in
+    (* (re)start prediction: the particles beliefSize draws of sampleProbability give, from the given
+       belief (call from scratch) or the uniform belief (restart), with a copy of the planner's engine *)
+    let rs = if not is_mcts then (expect r "RS"; next_nats r) else [] in
     let isb = if is_r then (expect r "SB"; next_list r (fun r -> let s = next_nat r in let cn = next_nat r in (s, cn))) else [] in
     expect r "TREE";
     let irtree = if is_r then parse_rnode r else rnode0 in
@@ -262,6 +265,28 @@ let judge _id (c : cursor) (r : cursor) : bool * string =
            end
          | [] -> ()))
       (split_groups steps_i evs);
+    (* a call from scratch, and an advance that cannot reuse a subtree (observation never simulated under
+       the action, or an empty stored belief), must start from the freshly resampled belief - not from
+       whatever particles the planner was holding *)
+    let restarted_here =
+      (not is_mcts) && (opk = "F" ||
+        (match List.nth_opt (acts !prev_itree) a1 with
+         | None -> true
+         | Some an -> (match List.find_opt (fun (k, _) -> ioN k = a2) (kids an) with
+             | Some (_, ch) -> (not is_r) && bel ch = []
+             | None -> true))) in
+    if restarted_here && not is_r then begin
+      if List.map ioN (bel itree) <> List.map ioN rs then
+        oracle_fail "particles_consistent" (if opk = "F" then "POMCP::makeSampledBelief" else "POMCP::sampleAction/restart")
+          (Printf.sprintf "%s: after a (re)start the root belief is [%s] but resampling the %s belief gives [%s]" opsite (str_nats (bel itree)) (if opk = "F" then "given" else "uniform") (str_nats rs))
+    end;
+    if restarted_here && is_r then begin
+      let cnt l = List.sort compare (List.filter (fun (_, c) -> c > 0) l) in
+      let exp_counts = List.sort_uniq compare (List.map ioN rs) |> List.map (fun s0 -> (s0, List.length (List.filter (fun x -> ioN x = s0) rs))) in
+      if cnt (List.map (fun (s0, c0) -> (ioN s0, ioN c0)) isb) <> cnt exp_counts then
+        oracle_fail "particles_consistent" (if opk = "F" then "rPOMCP::HeadBeliefNode" else "rPOMCP::sampleAction/restart")
+          (Printf.sprintf "%s: after a (re)start the sampling belief is [%s] but resampling gives [%s]" opsite (str_pairs (cnt (List.map (fun (s0, c0) -> (ioN s0, ioN c0)) isb))) (str_pairs (cnt exp_counts)))
+    end;
     (* POMCP fresh belief: particles must lie in the support of b *)
     if (not is_mcts) && (not is_r) && opk = "F" then
       List.iter (fun p -> let i = ioN p in
@@ -366,7 +391,7 @@ let judge _id (c : cursor) (r : cursor) : bool * string =
         let op = if opk = "F" then MFresh (nat_of_int a1, nat_of_int h) else MAdvance (nat_of_int a1, nat_of_int a2, nat_of_int h) in
         mcts_op ga term disc rl iters_n !tree op tr
       else
-        let ps = bel itree in   (* makeSampledBelief's draws are inputs; only used on a (re)start *)
+        let ps = rs in   (* makeSampledBelief's draws: the predicted resample, only used on a (re)start *)
         let op = if opk = "F" then PFresh (ps, nat_of_int h) else PAdvance (nat_of_int a1, nat_of_int a2, nat_of_int h, ps) in
         (* hypothesis of particles_consistent_full_pomcp, evaluated on the real log by the Coq checker *)
         if not (pomcp_coh_op a_n term disc rl iters_n !tree op tr) then
